@@ -52,6 +52,8 @@ func ctorOf(kind string) (string, string) {
 		return "KMset", "DMset"
 	case "top":
 		return "KTop", "DTop"
+	case "fblock":
+		return "", "DFBlock"
 	case "control":
 		return "", "DControl"
 	case "resphdr":
@@ -69,7 +71,11 @@ func childRecords(l []byte) map[string]interface{} {
 	}
 	if r.Phase == "scan" {
 		tab := w1.NewTable()
-		tab.ScanDecompress(r.Buf, 0, 0)
+		if r.Kind == "fblock" {
+			tab.ScanFetchBlock(r.Buf, int16(r.N))
+		} else {
+			tab.ScanDecompress(r.Buf, 0, 0)
+		}
 		return map[string]interface{}{"status": 0, "entries": tab.E}
 	}
 	if r.Kind == "recv" {
@@ -93,6 +99,8 @@ func childRecords(l []byte) map[string]interface{} {
 			term = w1.CoqRecordsTop(d.Records)
 		case "control":
 			term = w1.CoqControl(d.Control)
+		case "fblock":
+			term = w1.CoqFBlock(d.FBlock)
 		case "resphdr":
 			term = fmt.Sprintf("%s %s", cf.Z(int64(d.Length)), cf.Z(int64(d.Corr)))
 		case "reqhdr":
@@ -305,6 +313,77 @@ func runRecordsMalformed(out string, seed int64, n int, allBits bool, ch *w1.Chi
 		}
 		add(rinput{"reqhdr", rb, 0, nil, "random", ""})
 	}
+	// pooled decompressor readers (gzip, lz4): a payload with a damaged codec header decoded when the pools are empty
+	// (aux = fe: the child runs two collections first), then valid payloads of the same codec
+	fresh := []byte{0xfe}
+	for _, codec := range []sarama.CompressionCodec{sarama.CompressionGZIP, sarama.CompressionLZ4} {
+		inner := g.Set(2, 0)
+		for len(inner.Messages) == 0 {
+			inner = g.Set(2, 0)
+		}
+		ires := sarama.VerifEncodeValue(inner)
+		w := &sarama.Message{Codec: codec, CompressionLevel: sarama.CompressionLevelDefault, Value: ires.Bytes}
+		wres := sarama.VerifEncodeValue(&sarama.MessageSet{Messages: []*sarama.MessageBlock{{Offset: 1, Msg: w}}})
+		bt := g.Batch(true)
+		bt.Codec = codec
+		for len(bt.Records) == 0 {
+			bt = g.Batch(true)
+			bt.Codec = codec
+		}
+		bres := sarama.VerifEncodeValue(bt)
+		if ires.Status != 0 || wres.Status != 0 || bres.Status != 0 {
+			continue
+		}
+		for rep := 0; rep < 2; rep++ {
+			// legacy wrapper: value starts at 12 + 4 + 2 + 4 + 4 = 26 (magic 0, nil key)
+			bad := append([]byte{}, wres.Bytes...)
+			bad[26+rep] ^= 0x55
+			add(rinput{"mset", fixMsgCRC(bad), 0, fresh, "pool", fmt.Sprintf("codec %d header damaged, decompressor pools empty", codec)})
+			add(rinput{"mset", append([]byte{}, wres.Bytes...), rep, nil, "pool", fmt.Sprintf("valid codec %d payload after a damaged one", codec)})
+			badb := append([]byte{}, bres.Bytes...)
+			badb[61+rep] ^= 0x55
+			add(rinput{"batch", fixBatchCRC(badb), 0, fresh, "pool", fmt.Sprintf("codec %d header damaged, decompressor pools empty", codec)})
+			add(rinput{"batch", append([]byte{}, bres.Bytes...), rep, nil, "pool", fmt.Sprintf("valid codec %d payload after a damaged one", codec)})
+		}
+	}
+	// fetch response partition blocks: an empty (control) batch first / in the middle / last, then truncations and flips
+	for i := 0; i < n; i++ {
+		v := int16(4 + i%8)
+		blk := g.FetchBlock(v, true)
+		if i%2 == 0 {
+			empty := &sarama.RecordBatch{Version: 2, Control: i%4 == 0, FirstTimestamp: time.Unix(1, 0), MaxTimestamp: time.Unix(1, 0), Records: []*sarama.Record{}}
+			full := g.Batch(true)
+			for len(full.Records) == 0 {
+				full = g.Batch(true)
+			}
+			ctl := g.Batch(true)
+			ctl.Control = true
+			ctl.Records = []*sarama.Record{{Key: []byte{0, 0, 0, byte(i % 3)}, Value: []byte{0, 0, 0, 0, 0, 7}}}
+			blk.RecordsSet = []*sarama.Records{{RecordBatch: empty}, {RecordBatch: full}, {RecordBatch: ctl}}
+			if i%3 == 0 {
+				blk.RecordsSet = []*sarama.Records{{RecordBatch: full}, {RecordBatch: empty}, {RecordBatch: ctl}}
+			}
+			blk.Records = nil
+		}
+		res := sarama.VerifEncodeValue(sarama.VerifFetchBlock{Block: blk, Version: v})
+		if res.Status != 0 || len(res.Bytes) > 1300 {
+			continue
+		}
+		enc := res.Bytes
+		add(rinput{"fblock", enc, int(v), nil, "valid", ""})
+		for k := 0; k < len(enc); k += 1 + r.Intn(9) {
+			add(rinput{"fblock", enc[:k], int(v), nil, "truncate", fmt.Sprintf("first %d of %d bytes", k, len(enc))})
+		}
+		for j := 0; j < 24; j++ {
+			b := append([]byte{}, enc...)
+			p := r.Intn(len(b))
+			if j < 12 && len(b) > 40 {
+				p = r.Intn(40)
+			}
+			b[p] ^= 1 << uint(r.Intn(8))
+			add(rinput{"fblock", b, int(v), nil, "bitflip", fmt.Sprintf("byte %d", p)})
+		}
+	}
 	// response frames: boundary lengths for both header versions, decoded by responseHeader.decode and received end to
 	// end by a real Broker (responseReceiver sizes the body buffer as length - headerLength + 4)
 	for _, ver := range []int{0, 1} {
@@ -346,7 +425,7 @@ func runRecordsMalformed(out string, seed int64, n int, allBits bool, ch *w1.Chi
 		// frame header can make a decompressor allocate gigabytes by itself, which the property exempts)
 		tab := w1.NewTable()
 		var codecAlloc uint64
-		usesCodec := in.kind == "batch" || in.kind == "mset" || in.kind == "top"
+		usesCodec := in.kind == "batch" || in.kind == "mset" || in.kind == "top" || in.kind == "fblock"
 		if usesCodec {
 			sl, sdied, sto := ch.Call(map[string]interface{}{"rec": rreq{"scan", in.kind, in.buf, 0, in.n, in.aux}}, 10*time.Second)
 			if sdied || sto {
@@ -417,6 +496,8 @@ func runRecordsMalformed(out string, seed int64, n int, allBits bool, ch *w1.Chi
 		switch in.kind {
 		case "control":
 			dk = "(KControl " + w1.CoqBytes(in.aux) + ")"
+		case "fblock":
+			dk = fmt.Sprintf("(KFBlock %d)", in.n)
 		case "recv":
 			dk, ctor = fmt.Sprintf("(KReceive %d %s)", in.n, cf.Z(int64(rs.Corr))), ""
 		case "resphdr":
